@@ -15,10 +15,14 @@ def _inventory():
         return set(json.load(fh)["functions"])
 
 
-def new_functions(ctx):
+def new_function_keys(ix):
     inv = _inventory()
-    return {k for k, f in ctx.ix.funcs.items() if not isinstance(f.node, ast.Lambda) and k not in inv
+    return {k for k, f in ix.funcs.items() if not isinstance(f.node, ast.Lambda) and k not in inv
             and f.module.rel.startswith(("dateparser/", "dateparser_scripts/")) and not f.module.rel.startswith("dateparser/data/")}
+
+
+def new_functions(ctx):
+    return new_function_keys(ctx.ix)
 
 
 def _near(ctx, new):
@@ -44,6 +48,11 @@ def withdraw_unconfirmed(ctx, chk):
     new = new_functions(ctx)
     if not new:
         return 0
+    dropped = getattr(ctx.cg, "_effects_dropped", None)
+    if dropped:
+        fns = sorted({k.split(":")[-1] for k, _ in dropped})
+        chk.error("unconfirmed", "exceptions that may be born in the new function(s) %s were not followed (no rule instance has been confirmed "
+                                 "for them): the escape analysis is incomplete there" % ", ".join(fns[:4]))
     near = _near(ctx, new)
     by_site = {}
     for k, f in ctx.ix.funcs.items():
